@@ -17,11 +17,18 @@ Other  == JInt(2)
 (* an object with the member named k and near-misses: k with a letter appended, the undecoded JSON spelling of k *)
 KeyDoc(k) == MkObj(<<JMem(k, Marker), JMem(k \o <<97>>, Other), JMem(JsonStrBody(k) \o <<98>>, Other), JMem(<<122>> \o k, Other)>>)
 
+PadLit(v, pre, post) == <<cBTICK>> \o pre \o EscDelim(JsonText(v), cBTICK) \o post \o <<cBTICK>>
 CasesOf(s) ==
   (IF Spellable(s) THEN <<[e |-> "lexval", kind |-> "raw", text |-> SpellRaw(s), doc |-> JNull, want |-> JStr(s)]>> ELSE <<>>)
   \o <<[e |-> "lexval", kind |-> "lit", text |-> SpellLit(JStr(s)), doc |-> JNull, want |-> JStr(s)],
        [e |-> "lexval", kind |-> "lit", text |-> SpellLit(JArr(<<JStr(s), JNull>>)), doc |-> JNull, want |-> JArr(<<JStr(s), JNull>>)],
        [e |-> "lexval", kind |-> "lit", text |-> SpellLit(MkObj(<<JMem(s, JStr(s))>>)), doc |-> JNull, want |-> MkObj(<<JMem(s, JStr(s))>>)],
+       \* JSON blanks (space, tab, LF, CR) around the value inside the backticks, with and without an escaped backtick in the value
+       [e |-> "lexval", kind |-> "lit", text |-> PadLit(JStr(s), <<cSPACE>>, <<>>), doc |-> JNull, want |-> JStr(s)],
+       [e |-> "lexval", kind |-> "lit", text |-> PadLit(JStr(s), <<cNL, 9>>, <<13, cSPACE>>), doc |-> JNull, want |-> JStr(s)],
+       [e |-> "lexval", kind |-> "lit", text |-> PadLit(JArr(<<JStr(<<120>>), JStr(s)>>), <<9>>, <<cNL>>), doc |-> JNull, want |-> JArr(<<JStr(<<120>>), JStr(s)>>)],
+       [e |-> "lexval", kind |-> "lit", text |-> PadLit(MkObj(<<JMem(s, JNull)>>), <<13, cNL>>, <<>>), doc |-> JNull, want |-> MkObj(<<JMem(s, JNull)>>)],
+       [e |-> "lexval", kind |-> "lit", text |-> PadLit(JStr(s), <<>>, <<cSPACE, cSPACE>>), doc |-> JNull, want |-> JStr(s)],
        [e |-> "lexval", kind |-> "qid", text |-> SpellQ(s, 0), doc |-> KeyDoc(s), want |-> Marker],
        [e |-> "lexval", kind |-> "qid", text |-> SpellQ(s, 1), doc |-> KeyDoc(s), want |-> Marker],
        [e |-> "lexval", kind |-> "qid", text |-> SpellQ(s, 2), doc |-> KeyDoc(s), want |-> Marker],
